@@ -50,11 +50,11 @@ def canon_ent(ent, deep_bases=False, _seen=None):
     for b in ent.bases:
         if isinstance(b, EntityDef):
             if deep_bases:
-                seen = _seen or ()
-                if id(b) in seen:
+                seen = (_seen or ()) + (ent.classname.casefold(),)
+                if b.classname.casefold() in seen:
                     bases.append(['loop', b.classname])
                 else:
-                    bases.append(['ent', canon_ent(b, True, seen + (id(ent),))])
+                    bases.append(['ent', canon_ent(b, True, seen)])
             else:
                 bases.append(['ent', b.classname])
         else:
@@ -287,13 +287,35 @@ def exc_str(e):
     return f'{type(e).__name__}: {" ".join(str(e).split())[:200]}'
 
 
+class Hang(Exception):
+    pass
+
+
+HANGS = [0]
+
+
+def export_guarded(fgd, seconds=2.0, **kw):
+    """fgd.export(**kw) under a watchdog: a writer loop that never advances would otherwise eat all memory."""
+    import signal
+    def on_alarm(*a):
+        HANGS[0] += 1
+        raise Hang(f'export did not finish within {seconds}s')
+    old = signal.signal(signal.SIGALRM, on_alarm)
+    signal.setitimer(signal.ITIMER_REAL, seconds)
+    try:
+        return fgd.export(**kw)
+    finally:
+        signal.setitimer(signal.ITIMER_REAL, 0)
+        signal.signal(signal.SIGALRM, old)
+
+
 def text_roundtrip(fgd, custom_syntax, label_spawnflags, field_equality=True):
     """The property for the text format. Returns (problems, info); each problem is (key, what)."""
     probs = []
     info = {}
     before = {k: canon_ent(e) for k, e in fgd.entities.items()}
     try:
-        t1 = fgd.export(custom_syntax=custom_syntax, label_spawnflags=label_spawnflags)
+        t1 = export_guarded(fgd, custom_syntax=custom_syntax, label_spawnflags=label_spawnflags)
     except Exception as e:
         return [('export-raises', 'export raised ' + exc_str(e))], info
     info['len'] = len(t1)
@@ -315,7 +337,7 @@ def text_roundtrip(fgd, custom_syntax, label_spawnflags, field_equality=True):
                     probs.append(('field-differs', 'definition changed by export->parse: ' + d))
                     break
     try:
-        t2 = f2.export(custom_syntax=custom_syntax, label_spawnflags=label_spawnflags)
+        t2 = export_guarded(f2, custom_syntax=custom_syntax, label_spawnflags=label_spawnflags)
     except Exception as e:
         return probs + [('export-raises', 'second export raised ' + exc_str(e))], info
     if field_equality and custom_syntax and t2 != t1:
@@ -325,7 +347,7 @@ def text_roundtrip(fgd, custom_syntax, label_spawnflags, field_equality=True):
         # normal form reached after one pass: the second pass must be a fixed point
         try:
             f3 = parse_text(t2)
-            t3 = f3.export(custom_syntax=custom_syntax, label_spawnflags=label_spawnflags)
+            t3 = export_guarded(f3, custom_syntax=custom_syntax, label_spawnflags=label_spawnflags)
             if t3 != t2:
                 i = next((i for i, (a, b) in enumerate(zip(t2, t3)) if a != b), min(len(t2), len(t3)))
                 probs.append(('text-not-fixed', f'second export->parse->export not a fixed point at offset {i}: {t2[max(0,i-40):i+40]!r} vs {t3[max(0,i-40):i+40]!r}'))
